@@ -1,9 +1,11 @@
 import Req.Driver.Proto
 import Req.Client.HeaderSort
+import Req.Client.HeaderSortSpec
 import Req.H2.Fields
 import Req.Driver.WireUtil
 import Req.H2.HeaderBlock
 import Req.Client.Resend
+import Req.Client.Rewrite
 /-! Driver lanes of C16. -/
 namespace Req.Driver.L.C16
 open Req.Proto
@@ -17,6 +19,23 @@ def laneSort : List String → String
       let out := Req.HeaderSort.sortKeyValues kvs os
       encodeList (out.map fun kv => kv.key) ++ " " ++
         encodeList (out.map fun kv => kv.values.headD [])
+    | _, _ => "bad-op"
+  | _ => "bad-op"
+
+
+/-- `c16listed <keys> <order>` → the SPECIFICATION's answer (HeaderSortSpec): the listed keys stably
+sorted by the position of the last list entry naming them (+ the input-position tag of each), then
+the duplicate-free form of the order list (`dedupLast`), then the listed keys under that form. -/
+def laneListed : List String → String
+  | [keys, order] =>
+    match decodeList keys, decodeList order with
+    | some ks, some os =>
+      let kvs := ks.zipIdx.map fun (k, i) => (⟨k, [ofStr (toString i)]⟩ : Req.HeaderSort.KV)
+      let out := Req.HeaderSort.listedSorted kvs os
+      let dd := Req.HeaderSort.dedupLast os
+      let out2 := Req.HeaderSort.listedSorted kvs dd
+      encodeList (out.map fun kv => kv.key) ++ " " ++ encodeList (out.map fun kv => kv.values.headD []) ++ " " ++
+        encodeList dd ++ " " ++ encodeList (out2.map fun kv => kv.values.headD [])
     | _, _ => "bad-op"
   | _ => "bad-op"
 
@@ -132,6 +151,58 @@ def laneResend : List String → String
     | _, _, _, _, _, _, _, _, _, _, _ => "bad-op"
   | _ => "bad-op"
 
+
+/-- the case line of `c01h1` (decoded here too, so that the C16 driver file stands on its own):
+`<method> <rawurl> <host> <hdr> <cl> <hasBody> <body> <reads> <close> <extra> <proxy> <rawQuery>`. -/
+def decodeWReq : List String → Option Req.H1.WReq
+  | [m, raw, host, hdr, cl, hb, body, reads, close, extra, proxy, rq] => do
+    let m ← decodeHex m
+    let raw ← decodeHex raw
+    let host ← decodeHex host
+    let hdr ← Wire.decodeHdr hdr
+    let cl ← decodeInt cl
+    let hb ← Wire.decodeBool hb
+    let body ← Wire.decodeBody body
+    let reads ← decodeNatList reads
+    let close ← Wire.decodeBool close
+    let extra ← Wire.decodeHdr extra
+    let proxy ← Wire.decodeBool proxy
+    let rq ← if rq == "-" then pure none else (decodeHex rq).map some
+    match Req.Url.parse raw with
+    | .ok u0 =>
+      let u := match rq with
+        | some q => { u0 with rawQuery := q }
+        | none => u0
+      pure { method := m, url := u, host := host, header := hdr, contentLength := cl,
+             hasBody := hb, body := body, reads := reads, close := close, extra := extra,
+             usingProxy := proxy }
+    | .error _ => none
+  | _ => none
+
+def encodeHdrSorted (h : List Req.HeaderSort.KV) : String :=
+  let h := h.mergeSort fun a b => Req.BStr.le a.key b.key
+  if h.isEmpty then "-" else
+  ",".intercalate (h.map fun kv => ":".intercalate (encodeHex kv.key :: kv.values.map encodeHex))
+
+/-- `c16rewrite <n> <c01h1 arguments…>`: the SAME request object written `n` times in a row by
+`persistConn.writeRequest` (transparent re-send on a new connection): the rendering of every
+attempt (as `c01h1`), then the header map the request is left with (sorted by key; rendered by
+meaning: the values of the keys the writer writes in their sanitised form — idempotent, so the
+in-place sanitising of `headerWriteSubset` and a copying implementation give the same answer). -/
+def laneRewrite : List String → String
+  | n :: args =>
+    match n.toNat?, decodeWReq args with
+    | some n, some r =>
+      let res := Req.Rewrite.writeAttempts n r
+      let order := Req.H1.orderList r.header
+      let showOne : Except Req.H1.WErr Bytes → String
+        | .error e => showWErr e
+        | .ok wire => if order.isEmpty then "ok " ++ Wire.showBlob wire else Wire.showOrdered wire order
+      " | ".intercalate (res.1.map showOne) ++ " after=" ++
+        encodeHdrSorted (Req.Rewrite.sanitizedInPlace res.2.header Req.H1.reqWriteExcludeHeader)
+    | _, _ => "bad-op"
+  | _ => "bad-op"
+
 /-- `c16values <h2|h3> …` (arguments of `c16fields`) → for every header-map key whose lower-cased
 name has a single spelling in the map, sorted by name: the values of the fields of that name in
 ARRIVAL order (value order and multiplicity within a name; independent of the map iteration
@@ -162,8 +233,47 @@ def laneValues : List String → String
     | _, _, _, _, _, _, _, _, _, _ => "bad-op"
   | _ => "bad-op"
 
+
+/-- names the three stacks write or rewrite themselves (outside the cross-protocol comparison). -/
+def xOwn : List Bytes :=
+  [Req.H2.sHostL, Req.H2.sUserAgentL, Req.H2.sContentLengthL, Req.H2.sTransferEncodingL,
+   Req.H2.sConnectionL, Req.H2.sAcceptEncodingL, Req.H2.sCookieL, [116, 101],
+   [116, 114, 97, 105, 108, 101, 114]]
+
+def trimBlanks (v : Bytes) : Bytes :=
+  ((v.dropWhile fun b => b == 32 || b == 9).reverse.dropWhile fun b => b == 32 || b == 9).reverse
+
+/-- `c16xbag <h2|h3> …` (arguments of `c16fields`) → what an origin's handler sees of the caller's
+headers: the regular fields whose name no stack owns, as sorted `name: value` lines (values
+without surrounding blanks). -/
+def laneXBag : List String → String
+  | [fl, m, raw, host, hdr, cl, hb, nb, gz, lim] =>
+    let fl? : Option Req.H2.Flavor :=
+      if fl == "h2" then some .h2 else if fl == "h3" then some .h3 else none
+    let lim? : Option (Option Nat) := if lim == "-" then some none else lim.toNat?.map some
+    match fl?, decodeHex m, decodeHex raw, decodeHex host, Wire.decodeHdr hdr, decodeInt cl,
+          Wire.decodeBool hb, Wire.decodeBool nb, Wire.decodeBool gz, lim? with
+    | some fl, some m, some raw, some host, some hdr, some cl, some hb, some nb, some gz, some lim =>
+      match Req.Url.parse raw with
+      | .error _ => "bad-op"
+      | .ok u =>
+        let r : Req.H2.FReq := { method := m, url := u, host := host, header := hdr,
+                                 contentLength := cl, hasBody := hb, noBody := nb, addGzip := gz,
+                                 maxHeaderList := lim }
+        match Req.H2.fields fl r with
+        | .error e => showFErr e
+        | .ok fs =>
+          let keep := fs.filter fun f => f.1.head? != some 58 && !xOwn.contains f.1
+          let lines := keep.map fun f => f.1 ++ [58, 32] ++ trimBlanks f.2
+          "bag " ++ encodeList (lines.mergeSort Req.BStr.le)
+    | _, _, _, _, _, _, _, _, _, _ => "bad-op"
+  | _ => "bad-op"
+
 def lanes : List (String × (List String → String)) := [
   ("c16values", laneValues),
+  ("c16rewrite", laneRewrite),
+  ("c16listed", laneListed),
+  ("c16xbag", laneXBag),
   ("c16hframes", laneHFrames),
   ("c16resend", laneResend),
   ("sort", laneSort),
